@@ -40,11 +40,15 @@ THEOREMS = [
     "Pyval.paren_table_old_exact", "Pyval.paren_table_old_counterexample",
     "Pyval.toDoc_flatten", "Pyval.parseA_ok", "Pyval.derives_core",
     "Pyval.render_groups_partial", "Pyval.render_groups_counterexample",
-    "Pyval.tuple_kept_partial", "Pyval.tuple_kept_counterexample", "Pyval.unstring_counterexample_old", "Pyval.render_use_independent",
+    "Pyval.tuple_kept_partial", "Pyval.tuple_kept_counterexample", "Pyval.unstring_counterexample_old",
+    "Pyval.render_use_independent",
+    "Pyval.storeAll_aug", "Pyval.aug_value_reads_back",
     "Pyval.str_roundtrip", "Pyval.str_roundtrip_lines", "Pyval.strEscape_no_nul",
-    "Pyval.bytes_roundtrip", "Pyval.bytes_roundtrip_old_counterexample",
+    "Pyval.str_display_roundtrip", "Pyval.str_constant_display",
+    "Pyval.bytes_roundtrip", "Pyval.bytes_roundtrip_lines", "Pyval.bytes_roundtrip_old_counterexample",
     "Pyval.display_eq_render", "Pyval.display_const_full", "Pyval.nul_dropped_old_counterexample",
     "Pyval.output_marked", "Pyval.exec_spec", "Pyval.wrap_marked", "Pyval.wrap_prefix_counterexample",
+    "Pyval.trimResult_prefix", "Pyval.cut_shows_written",
 ]
 PARTIAL = {
     "Pyval.render_groups_partial": "okTree excludes trees containing a one-element tuple (also as subscript index), an empty tuple as subscript index, a delegated node on which astor raised ('??'); the right-operand and huge-int exclusions are gone with b6b97a7 / 61018a8",
@@ -58,16 +62,21 @@ PARTIAL = {
     "Pyval.unstring_counterexample_old": "HISTORICAL: \"a | b\" & c before a1c047d (Expr.unlinked)",
     "Pyval.nul_dropped_old_counterexample": "HISTORICAL: '\\x00' before e938da2 (strEscapeOld)",
 }
-RULE = ("exhaustive: every root form (4 unary, 13 binary, and/or with 2 and 3 operands, 10 comparison operators and "
+RULE = ("corpus first (every finding's input, every seeded change's shape: seeded/C15-1, C15-2, C15-r2-1..3, C14-r2-1, C14-r2-3); "
+        "exhaustive: every root form (4 unary, 13 binary, and/or with 2 and 3 operands, 10 comparison operators and "
         "chains, conditional, lambda, 7 call shapes, 6 subscript shapes, attribute, tuple/list/set/dict displays of "
         "0-3 items incl. ** and *, 5 starred contexts, await/:=/yield/comprehensions/f-string) with every form in every "
         "operand slot (other slots: names); every pair of operator forms in the slots of every operator root; every chain "
         "(operator, operand position)^2 x operator of depth three; every literal-leaf kind bare and in every context; "
-        "linelen 0..40 x maxlines 0..4; random deeper trees. Non-trivial = the AST contains an operator node "
-        "(UnaryOp/BinOp/BoolOp/Compare/IfExp) whose child is an operator node.")
+        "linelen 0..40 x maxlines 0..4; a quoted operator expression in every operand slot of every native operator and in "
+        "23 typing/Literal wrappers; the same string annotation in every context before/after a bare use, rendered in "
+        "documentation and reverse order; X = first; X op= rhs for 13 operators x 27 x 27 operand shapes (sampled in quick), "
+        "chains, module and class level; 90 curated + random regular expressions x 8 call shapes x str/bytes; random deeper "
+        "trees. Non-trivial = the AST contains an operator node (UnaryOp/BinOp/BoolOp/Compare/IfExp) whose child is an operator node.")
 ASSUMPTIONS = [
     "expressions are colourized as pydoctor does it: the node has no expression parent (top level of a default, annotation, decorator, base, constant value)",
-    "re.compile(...) calls are outside the model (regex colourizer); they are not generated",
+    "re.compile(<constant>) goes through the regex colourizer (_colorize_ast_re, _colorize_re_pattern, _colorize_re_tree over pydoctor's vendored sre_parse36): NOT modelled; the regex stream checks it with the direct oracle only (same call, same flags expression, pattern constant equal or read as the same regex by CPython's re._parser; patterns CPython itself rejects are exempt); the other streams never generate re.compile",
+    "_storeAttrValue is modelled (storeAttrValue/storeAll); that the builder calls it once per assignment statement of a documented module/class variable, in source order, is what the augassign stream checks",
     "what is delegated to astor outside comparison/conditional expressions over names and operators is an opaque leaf: the model is given astor's text; that the text is self-delimiting is checked only by the direct oracle (CPython re-parse)",
     "float/complex constants: the model is given str(value) and applies the inf -> 1e309 replacement itself; numeric formatting is judged by the oracle through the parsed value",
     "string annotations: since a1c047d every node of an unquoted annotation has its parent link, so the model request is the plain tree (the historical `ul` marker is no longer sent); the unstring stream and its oracle stay",
@@ -977,7 +986,7 @@ def exhaustive_docs() -> Iterable[Any]:
 def grammar_stream(ctx: Ctx) -> None:
     reqs, impls, pay = [], [], []
     docs = list(exhaustive_docs())
-    n = 4000 if ctx.quick else 150000
+    n = 2500 if ctx.quick else 150000
     docs += [rand_doc(ctx.rng, ctx.rng.randint(1, 4)) for _ in range(n)]
     seen = set()
     for d in docs:
@@ -1017,7 +1026,7 @@ def pipeline_stream(ctx: Ctx) -> None:
     from pydoctor import model
     from pydoctor.epydoc.markup._pyval_repr import colorize_pyval, colorize_inline_pyval
     from pydoctor.node2stan import gettext
-    n = 150 if ctx.quick else 2500
+    n = 100 if ctx.quick else 2500
     reqs, impls, pay = [], [], []
 
     def take(node_in_tree: ast.AST, src: str, r, cfg) -> None:
@@ -1175,7 +1184,7 @@ UNSTRING_LITS = ['"a | b"', '"Foo"', '"a or b"', '"-a"', '"List[\'a | b\']"', '"
                  '"a if b else c"', '"(a, b)"', '"\'nested | s\' & z"', '"a < b"', '"r"', '"a b"', '"r+"']
 
 
-def unstring_stream(ctx: Ctx) -> None:
+def unstring_stream(ctx: Ctx, only: Optional[List[str]] = None, stream: str = "unstring") -> None:
     """string annotations: a string-literal sub-annotation spelling an operator expression in every
     operand slot of every operator (and in the usual typing wrappers); displayed through the real
     unstring_annotation + colorize_inline_pyval (parent links as in a built module);
@@ -1213,6 +1222,8 @@ def unstring_stream(ctx: Ctx) -> None:
         return f.build(ks)
     for _ in range(300 if ctx.quick else 5000):
         anns.append(quoted(ctx.rng.randint(2, 4)))
+    if only is not None:
+        anns = list(only)
     reqs, impls, pay = [], [], []
     seen = set()
     for ann in anns:
@@ -1240,13 +1251,15 @@ def unstring_stream(ctx: Ctx) -> None:
         pay.append({"annotation": ann})
         nt = nontrivial(expected)
         ctx.case("U|" + ann, nt, None)
-        ctx.count("stream:unstring")
+        ctx.count("stream:" + stream)
+        if "Literal" in ann:
+            ctx.count(stream + ":with-Literal")
         if not r.is_complete:
             continue
         v = annotation_verdict(ann, text)
         if v is not None:
             ctx.fail(v[0], {"annotation": ann}, v[1])
-    ctx.compare("pyval-unstring", reqs, impls, pay)
+    ctx.compare("pyval-" + stream, reqs, impls, pay)
 
 
 # --------------------------------------------------------------------------- annotation sequences (several uses of one string)
@@ -1281,7 +1294,7 @@ def annotation_verdict(ann: str, text: str) -> Optional[Tuple[str, str]]:
     return classify(plain, (0, 1, False), v), what
 
 
-def sequence_stream(ctx: Ctx) -> None:
+def sequence_stream(ctx: Ctx, only: Optional[List[Any]] = None, stream: str = "sequence") -> None:
     """The SAME string-annotation text used several times — in one function, across functions, across
     modules, as parameter / return / attribute annotation — in different operator contexts and orders,
     built from text by the real builder and rendered as the templates do (pages.format_signature,
@@ -1313,6 +1326,8 @@ def sequence_stream(ctx: Ctx) -> None:
         rest = plans[4 * 12 * 2:]
         ctx.rng.shuffle(rest)
         plans = fixed + rest[:120]      # … and a sample of the others
+    if only is not None:
+        plans = list(only)
     for s, funcs in plans:
         # module m1: the functions; module m2: an attribute and a function using the same text again
         src1 = "import typing as t\nfrom typing import *\n"
@@ -1365,7 +1380,8 @@ def sequence_stream(ctx: Ctx) -> None:
                     continue
                 text = per_use[key]
                 ctx.case("S|%s|%s|%s" % (order, src1, key), True, None)
-                ctx.count("stream:sequence")
+                ctx.count("stream:" + stream)
+                ctx.count(stream + ":slot:" + ("param" if slot.startswith("p") else slot))
                 try:
                     toks = unstring_tokens(ast.parse(ann, mode="eval").body)
                     reqs.append("pyval render 0 1 0 " + " ".join(toks))
@@ -1394,7 +1410,7 @@ def sequence_stream(ctx: Ctx) -> None:
                 ctx.fail("annotation:display-depends-on-other-uses",
                          {"modules": {"m1": src1, "m2": src2}, "use": list(key)},
                          f"{key} is displayed as {d[key]!r} when rendered in documentation order and as {r[key]!r} in reverse order")
-    ctx.compare("pyval-sequence", reqs, impls, pay)
+    ctx.compare("pyval-" + stream, reqs, impls, pay)
 
 
 # --------------------------------------------------------------------------- augmented assignments (builder-made BinOp)
@@ -1403,7 +1419,7 @@ AUG_OPS = {"Add": "+=", "Sub": "-=", "Mult": "*=", "MatMult": "@=", "Div": "/=",
            "LShift": "<<=", "RShift": ">>=", "BitOr": "|=", "BitXor": "^=", "BitAnd": "&=", "FloorDiv": "//="}
 
 
-def augassign_stream(ctx: Ctx) -> None:
+def augassign_stream(ctx: Ctx, only: Optional[List[Any]] = None, stream: str = "augassign") -> None:
     """`X = first` followed by `X <op>= rhs` (and chains of them), at module and class level, through
     the real astbuilder: `_storeAttrValue` builds a synthetic BinOp(first, op, rhs) whose operands still
     belong to their statements.  `attr.value` as the builder stored it is rendered by the real colorizer
@@ -1423,14 +1439,16 @@ def augassign_stream(ctx: Ctx) -> None:
         keep = [c for c in cases if c[0][0] in ("a", "a + b", "a ** b", "-a", "a or b") or c[1][0] in ("a", "a - b", "a * b")]
         rest = [c for c in cases if c not in keep]
         ctx.rng.shuffle(rest)
-        cases = keep + rest[:1500]
-    for _ in range(300 if ctx.quick else 4000):      # chains of several augmented assignments
+        cases = keep + rest[:700]
+    for _ in range(150 if ctx.quick else 4000):      # chains of several augmented assignments
         steps = [(ctx.rng.choice(operands), "")]
         for _k in range(ctx.rng.randint(2, 3)):
             steps.append((ctx.rng.choice(operands), ctx.rng.choice(list(AUG_OPS))))
         cases.append(steps)
     cases.append([("['x']", ""), ("['y', 'z']", "Add")])          # __all__-like lists
     cases.append([("['x']", ""), ("['y']", "Add"), ("other.names", "Add")])
+    if only is not None:
+        cases = list(only)
     reqs, impls, pay = [], [], []
     CH = 120
     for base in range(0, len(cases), CH):
@@ -1468,7 +1486,11 @@ def augassign_stream(ctx: Ctx) -> None:
                         r, ans = None, "raise " + type(ex).__name__
                     tree2 = ast.parse(esrc, mode="eval").body
                     try:
-                        reqs.append("pyval render %d %d %d %s" % (cfg[0], cfg[1], 1 if cfg[2] else 0, " ".join(etoks(tree2))))
+                        # the model gets the STATEMENTS and folds them with its transcription of _storeAttrValue
+                        stoks = [t for (e, opn) in steps
+                                 for t in [opn or "="] + etoks(ast.parse(e, mode="eval").body)]
+                        reqs.append("pyval aug %d %d %d %d %s" % (cfg[0], cfg[1], 1 if cfg[2] else 0, len(steps),
+                                                                " ".join(stoks)))
                         impls.append(ans)
                         pay.append({"statements": ["V %s %s" % (AUG_OPS[o] if o else "=", e) for e, o in steps],
                                     "where": where, "source": esrc, "linelen": cfg[0], "maxlines": cfg[1],
@@ -1476,14 +1498,200 @@ def augassign_stream(ctx: Ctx) -> None:
                     except Skip:
                         pass
                     ctx.case("A|%s|%r|%r" % (where, steps, cfg), nontrivial(tree2), None)
-                    ctx.count("stream:augassign")
+                    ctx.count("stream:" + stream)
+                    ctx.count(stream + ":steps:%d" % (len(steps) - 1))
+                    ctx.count(stream + ":op:" + steps[1][1])
                     known = {f["signature"] for f in ctx.failures}
                     oracle(ctx, esrc, tree2, ans, r, cfg)
                     for f in ctx.failures:            # a failure first seen here: say which statements made the value
                         if f["signature"] not in known:
                             f["input"] = dict(f["input"], where=where,
                                               statements=["V %s %s" % (AUG_OPS[o] if o else "=", e) for e, o in steps])
-    ctx.compare("pyval-augassign", reqs, impls, pay)
+    ctx.compare("pyval-" + stream, reqs, impls, pay)
+
+
+# --------------------------------------------------------------------------- regular expressions (oracle only)
+
+RE_PATTERNS = [
+    r"abc", r"a.b*c+d?", r"(a|b)", r"(?:a|b)+", r"(?P<n>x)\1", r"[a-z0-9_]", r"[^abc]", r"\d+\s\w\W\D\S", r"^a$",
+    r"\Aa\Z", r"a{2,3}b{2,}c{,3}d{4}", r"a*?b+?c??", r"(?i)abc", r"(?ms)a.b", r"it's", r'say "x"', r"a\.b", r"\\",
+    r"\t\n\r\f\v", r"[\]]", r"(?=a)(?!b)(?<=c)(?<!d)", r"\bword\B", r"a|b|c", r"(a)(b)\2", r"\x41\x00\x7f", "é中",
+    r"[\d\s]", r"(?P<a>x)(?P=a)", r"(?x) a b # c", r"a{3}?", r"\.", r"x**", r"(", r"[a", r"(?i:a)b", r"(?-i:a)b",
+    r"(?s:.)x", r"a++", r"(?>ab)c", r"", r" ", r"a{1}", r"a{0,1}", r"a{1,}", r"a{0,}", r"[a-]", r"[-a]", r"[\-]",
+    r"[a\]b]", r"[\^a]", r"[^^]", r"\$\^\*\+\?\{\}\[\]\|\(\)", r"(a)|b", r"((a))", r"(a(b)c)", r"()", r"(?:)",
+    r"a|", r"|a", r"(|a)", r"[\w.]+@[\w.]+", r"^\s*(\w+)\s*=\s*(.*?)\s*$", r"\d{1,3}(?:\.\d{1,3}){3}", r"[A-Fa-f0-9]{8}",
+    r"(?u)\w", r"(?a)\w", r"(?L)x", r"\u00e9", r"\U0001f600", r"\N{DIGIT ONE}", r"\0", r"\07", r"\101", r"[\0-\x1f]",
+    r"[\b]", r"\A\Z\b\B", r"a{2}{3}", r"(?P<x>a)(?(x)b|c)", r"(?#comment)a", r"\'", r"'", r"''", r"\"", "a\nb", "a\\\nb",
+]
+RE_FORMS = ["re.compile({p})", "re.compile({p}, re.I | re.M)", "re.compile({p}, flags=re.X)", "re.compile(pattern={p})",
+            "re.compile(flags=re.S, pattern={p})", "[re.compile({p}), 1]", "f(re.compile({p}))", "re.compile({p}).match"]
+
+
+def _re_tree(pat):
+    """CPython's own parse of a pattern: (structure, flags) or the error class"""
+    import re._parser as sp
+    import warnings
+    with warnings.catch_warnings():
+        warnings.simplefilter("ignore")
+        try:
+            t = sp.parse(pat, 0)
+            return (repr(t), t.state.flags)
+        except Exception as e:
+            return "error:" + type(e).__name__
+
+
+def _re_calls(tree: ast.AST):
+    return [n for n in ast.walk(tree) if isinstance(n, ast.Call) and dotted(n.func) == ["re", "compile"]]
+
+
+def _re_bound(call: ast.Call):
+    """(pattern node, flags node) of a re.compile call, by the signature of re.compile"""
+    import inspect
+    import re as _re
+    sig = inspect.signature(_re.compile)
+    try:
+        b = sig.bind(*call.args, **{k.arg: k.value for k in call.keywords if k.arg})
+    except TypeError:
+        return None
+    return b.arguments.get("pattern"), b.arguments.get("flags")
+
+
+def regex_stream(ctx: Ctx) -> None:
+    """`re.compile(<constant pattern>[, flags])` goes through `_colorize_ast_re` / `_colorize_re_pattern`,
+    which re-spells the pattern from pydoctor's vendored sre_parse36 tree.  Not modelled; direct oracle:
+    the displayed text is an expression, it is the same expression outside the `re.compile` calls, every
+    call binds the same flags expression, and its pattern constant is the source pattern or one that
+    CPython's regex parser reads as the same regex (same parse tree, same inline flags)."""
+    from pydoctor.epydoc.markup._pyval_repr import colorize_inline_pyval, colorize_pyval
+    from pydoctor.node2stan import gettext
+    pats: List[Any] = list(RE_PATTERNS)
+    atoms = ["a", "b", ".", r"\d", r"\w", "[ab]", "[^a-c]", "(a)", "(?:b)", "(?P<g>c)", "^", "$", r"\b", "|", "*", "+", "?",
+             "{2}", "{1,3}", "*?", r"\.", r"\\", "'", '"', " ", "é", r"\n", "(?i)", "(?=a)", "(?!b)", r"\1", "-", "]", "x{,2}"]
+    for _ in range(100 if ctx.quick else 6000):
+        pats.append("".join(ctx.rng.choice(atoms) for _ in range(ctx.rng.randint(1, 6))))
+    n_eq = n_same = 0
+    for pat in pats:
+        variants = [repr(pat)]
+        if pat.isascii():
+            variants.append(repr(pat.encode("ascii")))
+        for pv in variants:
+            for form in (RE_FORMS if pat in RE_PATTERNS else RE_FORMS[:2]):
+                src = form.format(p=pv)
+                for cfg in ((0, 1, False), (80, 7, True)):
+                    try:
+                        tree = ast.parse(src, mode="eval").body
+                    except SyntaxError:
+                        continue
+                    inp = {"source": src, "linelen": cfg[0], "maxlines": cfg[1], "linebreakok": cfg[2]}
+                    ctx.case("R|%s|%r" % (src, cfg), False, None)
+                    ctx.count("stream:regex")
+                    try:
+                        r = colorize_inline_pyval(tree) if cfg == (0, 1, False) else \
+                            colorize_pyval(tree, linelen=cfg[0], maxlines=cfg[1])
+                    except Exception as e:
+                        ctx.fail("regex:crash:" + type(e).__name__, inp, f"colorizing {src!r} raised {type(e).__name__}: {e}")
+                        continue
+                    text, marker, _ = displayed_text(r)
+                    if not r.is_complete:
+                        if not marker:
+                            ctx.fail("cut:not-marked", inp, "is_complete is False but there is no '...' marker")
+                        ctx.count("regex:cut")
+                        continue
+                    try:
+                        shown = ast.parse(text, mode="eval").body
+                    except SyntaxError:
+                        ctx.fail("regex:not-an-expression", inp, f"{src!r} is displayed as {text!r}, which is not a Python expression")
+                        continue
+                    want = ast.parse(src, mode="eval").body
+                    wc, sc = _re_calls(want), _re_calls(shown)
+                    bad = None
+                    if len(wc) != len(sc):
+                        bad = ("regex:call-lost", "the re.compile call is not shown as one")
+                    else:
+                        for a, b in zip(wc, sc):
+                            ba, bb = _re_bound(a), _re_bound(b)
+                            if ba is None or bb is None:
+                                bad = ("regex:arguments", "the arguments do not bind")
+                                break
+                            (pa, fa), (pb, fb) = ba, bb
+                            if (fa is None) != (fb is None) or (fa is not None and norm_dump(fa) != norm_dump(fb)):
+                                bad = ("regex:flags-changed", "the flags argument differs")
+                                break
+                            if not (isinstance(pb, ast.Constant) and isinstance(pb.value, (str, bytes))):
+                                bad = ("regex:pattern-not-a-constant", "the pattern is not shown as a constant")
+                                break
+                            if type(pa.value) is not type(pb.value):
+                                bad = ("regex:pattern-type-changed", "str/bytes pattern type changed")
+                                break
+                            if pa.value == pb.value:
+                                n_eq += 1
+                            else:
+                                ta, tb = _re_tree(pa.value), _re_tree(pb.value)
+                                if isinstance(ta, str):
+                                    # the source pattern is not a regex for this interpreter (pydoctor's vendored
+                                    # 3.6 parser is more lenient): nothing to preserve
+                                    ctx.count("regex:source-pattern-invalid-for-cpython-respelled")
+                                elif ta != tb:
+                                    # which feature of the source pattern was lost?
+                                    sig = "regex:scoped-inline-flags-dropped" if re.search(r"\(\?[aiLmsux]*(-[imsx]+)?:", str(pa.value)) \
+                                        else "regex:pattern-means-something-else"
+                                    bad = (sig, f"the pattern {pa.value!r} is shown as {pb.value!r}, which CPython's regex parser reads differently")
+                                    break
+                                n_same += 1
+                            # neutralise the call for the comparison of the surrounding expression
+                            for c in (a, b):
+                                c.args, c.keywords = [], []
+                        if bad is None and norm_dump(shown) != norm_dump(want):
+                            bad = ("regex:context-changed", "the expression around the re.compile call differs")
+                    if bad is not None:
+                        ctx.fail(bad[0], inp, f"{src!r} is displayed as {text!r}: " + bad[1])
+    ctx.count("regex:pattern-shown-verbatim", n_eq)
+    ctx.count("regex:pattern-respelled-same-regex", n_same)
+
+
+# --------------------------------------------------------------------------- corpus: runs FIRST on every run
+
+def corpus_stream(ctx: Ctx) -> None:
+    """every past finding's input and every seeded change's needed shape (seeded/C15*, seeded/C14-r2-1,-3),
+    deterministic, so that detection never depends on the seed"""
+    inl, cv = (0, 1, False), (80, 7, True)
+    b = Batch(ctx, "corpus")
+    sources = [
+        # findings (fixed and open)
+        "a - (b - c)", "a / (b * c)", "a - (b + c)", "(a,)", "x[1,]", "f((1,))", "Tuple[()]", "(*a,)", "((a,),)",
+        "1e999", "1e999j", "-1e999", "'\\x00'", "'a\\x00 b'", "'a\\x00\\nb'", 'b"it\'s"', "[b\"'\\nA\"]", HUGE_BAD, "x < " + HUGE_BAD,
+        "v[(a, b):c]", "f\"{lambda: a}\"", "f\"{ {a} }\"", "{k: {**(a in b)} for i in z}",
+        # seeded/C15-1: right operand of + or * of the same precedence level
+        "2 * (7 // 2)", "a + (b - c)", "a + (b + c)", "A * (B // C)", "A * (B % C)", "A * (B @ C)", "a + (b - c) * d",
+        # seeded/C15-r2-1: a tuple display that is itself subscripted
+        "(a, b)[0]", "(1, 2)[0]", "table[(1, 2)[0], 3]", "f(p=(1, 2)[0])", "(a, b)[0][1]", "x[a, b]", "x[(a, b)]",
+    ]
+    for s in sources:
+        b.add(s, inl)
+        b.add(s, cv)
+    # seeded/C15-2 and C15-r2-3: a breakable token starting on an exactly full line, at every small width
+    wraps = ["1234567 + 'abcdef'", "'Hello, ' + 'world'", "'" + "x" * 76 + "' + name", "name_of_19_chars_ab + 12345",
+             "name_of_19_chars_ab * 'text'", "[1, 'abc', name + 22]", "aaaa + 1234 + 'zz' * 3"]
+    for s in wraps:
+        for ll in list(range(1, 30)) + [78, 79, 80, 81]:
+            for ml in (0, 2, 7):
+                b.add(s, (ll, ml, True))
+    b.flush()
+    # string annotations (findings + seeded/C14-r2-3)
+    unstring_stream(ctx, only=['"A | B" & C', 'C & "A | B"', '-"A + B"', 'not "A or B"', '"A or B" and C', '"Foo" | None',
+                               'Optional["A | B"]', 't.Literal["r", "w"]', 'te.Literal["a | b"]', 'typing.Literal["a b", "c"]',
+                               'Optional[t.Literal["a b", "c"]]', 'Literal["r+"] | None'], stream="corpus-unstring")
+    # seeded/C14-r2-1: the same string under an operator first and bare later, and the reverse
+    q = repr("Read | Write")
+    sequence_stream(ctx, only=[("Read | Write", [["Flags & " + q], [q]]), ("Read | Write", [[q], ["Flags & " + q]]),
+                               ("Read | Write", [["Flags & " + q, q]]), ("Read | Write", [[q, "Flags & " + q]]),
+                               ("Read | Write", [["-" + q], ["Optional[%s]" % q], [q]])], stream="corpus-sequence")
+    # seeded/C15-r2-2: plain assignment then augmented assignment
+    augassign_stream(ctx, only=[[("BASE + 1", ""), ("2", "Mult")], [("100", ""), ("a - b", "Sub")],
+                                [("a + b", ""), ("2", "Mult")], [("a", ""), ("b", "Add")], [("100", ""), ("a * b", "Div")],
+                                [("2", ""), ("a ** b", "Pow")], [("a or b", ""), ("c", "BitAnd")],
+                                [("1", ""), ("2", "Add"), ("3", "Mult"), ("a - b", "Sub")],
+                                [("['x']", ""), ("['y', 'z']", "Add")]], stream="corpus-augassign")
 
 
 # --------------------------------------------------------------------------- run
@@ -1493,6 +1701,8 @@ def run(ctx: Ctx) -> None:
     import warnings
     sys.setrecursionlimit(10000)
     warnings.simplefilter("ignore", SyntaxWarning)     # displayed text with stray backslashes is re-parsed
+    # 0. the corpus of past failures and seeded shapes, first
+    corpus_stream(ctx)
     # 1. exhaustive depth 2
     b = Batch(ctx, "depth2")
     for src in gen_depth2(ctx):
@@ -1513,7 +1723,7 @@ def run(ctx: Ctx) -> None:
             b.add(src)
             if c in ("{0}", "[{0}]", "{0} + x", "f(k={0})"):
                 b.add(src, (80, 7, True))
-    nstr = 400 if ctx.quick else 6000
+    nstr = 250 if ctx.quick else 6000
     for _ in range(nstr):
         s = rand_str(ctx.rng)
         b.add(repr(s), (0, 1, False))
@@ -1537,7 +1747,7 @@ def run(ctx: Ctx) -> None:
     b.flush()
     # 5. random deeper trees
     b = Batch(ctx, "random")
-    n = 2000 if ctx.quick else 60000
+    n = 1200 if ctx.quick else 60000
     for _ in range(n):
         src = rand_expr(ctx.rng, ctx.rng.randint(3, 5))
         if len(src) > 400:
@@ -1556,6 +1766,8 @@ def run(ctx: Ctx) -> None:
     sequence_stream(ctx)
     # 10. values the builder assembles from several statements (augmented assignments)
     augassign_stream(ctx)
+    # 11. re.compile(...) constants (regex colourizer; oracle only)
+    regex_stream(ctx)
     ctx.extra["forms"] = len(FORMS)
 
 
